@@ -35,7 +35,7 @@ for cert in &base_settings.root_certificates.0
     while vp_i < certs.len()
         invariant
             vp_i <= certs@.len(), certs == &base_settings.root_certificates.0,
-            hs_flags(handshaker) == (base_settings.accept_invalid_certs, base_settings.accept_invalid_hostnames),
+            flags_are(hs_flags(handshaker), base_settings.accept_invalid_certs, base_settings.accept_invalid_hostnames),
             hs_roots(handshaker) == r0 + certs@.take(vp_i as int),
         decreases certs@.len() - vp_i,
     {
@@ -52,7 +52,7 @@ cert.clone()
 vp_cert_clone(cert)
 //@@ contract
     ensures
-        hs_flags(final(handshaker)) == (base_settings.accept_invalid_certs, base_settings.accept_invalid_hostnames), // id: handshaker_gets_exactly_this_requests_flags [C14,C16]
+        flags_are(hs_flags(final(handshaker)), base_settings.accept_invalid_certs, base_settings.accept_invalid_hostnames), // id: handshaker_gets_exactly_this_requests_flags [C14,C16]
         hs_roots(final(handshaker)) == hs_roots(old(handshaker)) + base_settings.root_certificates.0@, // id: handshaker_gets_exactly_this_requests_roots [C14,C16]
 //@@ end
 
@@ -109,7 +109,7 @@ vp_host_to_string(host).as_str()
         ensures
             res matches Ok(s) ==> (s matches BaseStream::Tls { stream, .. } // id: direct_tls_verified_against_the_dialled_host_with_this_requests_flags [C14]
                 && tls_domain(&stream) == host_str_of(*host)
-                && tls_flags(&stream) == (info.base_settings.accept_invalid_certs, info.base_settings.accept_invalid_hostnames)
+                && flags_are(tls_flags(&stream), info.base_settings.accept_invalid_certs, info.base_settings.accept_invalid_hostnames)
                 && tls_roots(&stream) == info.base_settings.root_certificates.0@
                 && tcp_peer_of(&tls_inner(&stream)) == (host_str_of(*host), port) && tcp_info(&tls_inner(&stream)) == (*info.url, opt_url(info.proxy))),
 //@@ end
@@ -177,7 +177,7 @@ TlsHandshaker::new()
         ensures
             res matches Ok(s) ==> (s matches BaseStream::Tunnel { stream: t } // id: tunnel_tls_is_for_the_origin_with_this_requests_flags_and_nothing_else_went_out_in_clear [C12,C14]
                 && Some(tls_domain(&*t)) == url_host(remote_url)
-                && tls_flags(&*t) == (base_settings.accept_invalid_certs, base_settings.accept_invalid_hostnames)
+                && flags_are(tls_flags(&*t), base_settings.accept_invalid_certs, base_settings.accept_invalid_hostnames)
                 && tls_roots(&*t) == base_settings.root_certificates.0@
                 && wrote(&tls_inner(&*t).sp_inner()) == stream.sent() + connect_head(remote_url, proxy_url)),
             res matches Ok(s) ==> s.dialled() == stream.dialled() && s.tcp_peer() == stream.tcp_peer(), // id: tunnel_runs_over_the_proxy_connection_handed_in [C08,C12]
